@@ -327,8 +327,8 @@ func c18AtomicCAS01(c ssa.CallInstruction, tf string) string {
 
 func c18(r *core.Run) {
 	p := r.P
-	r.Explanation = "Decides for lib/syncx, on every control-flow path: lock balance and the guarded-by tables (flightGroup.calls, lockedGroup.m, Pool{created,head}, RefResource{ref,cleaned}, ResourceManager.resources, ManagedResource.resource, ImmutableResource{resource,err}); Guard runs its function under the lock; in both flight groups: lookup and insertion form one critical section, the key is inserted only when absent and published (with its WaitGroup armed) before the user function runs, cleanup (delete + Done) is deferred around the user function, SingleFlight deletes before Done, shared callers wait, only the creator executes and DoEx reports fresh accordingly; Limit capacity = n, Borrow sends, TryBorrow/Return are the non-blocking send/receive and report their outcome; TimeoutLimit reports success only after a borrow, ErrTimeout only once the remaining time is <= 0 (remaining = timeout - elapsed, false only from the timer case) and signals after a successful return; Pool increments created only under created < limit and before create, unlinks the head before handing it out, destroys and discounts an aged head, re-tests after Wait (in a loop, Cond built on the pool's lock) and signals on Put; RefResource runs clean only on ref reaching 0 after cleaned=true and Use refuses when cleaned; ResourceManager.Get creates only inside singleFlight.Do(key) after a failed lookup and stores the result, Close closes every entry; DoneChan closes only inside once.Do; OnceGuard/SpinLock use CAS 0→1 and Lock returns only after a successful TryLock."
-	r.NotDecided = "linearizability of concurrent histories against the sequential specifications; timing of timed borrows and resource ageing (clock values); fairness/liveness of waiters; aliasing of guarded maps through local copies."
+	r.Explanation = "Decides for lib/syncx, on every control-flow path: lock balance and the guarded-by tables (flightGroup.calls, lockedGroup.m, Pool{created,head}, RefResource{ref,cleaned}, ResourceManager.resources, ManagedResource.resource, ImmutableResource{resource,err}); Guard runs its function under the lock; in both flight groups: lookup and insertion form one critical section, the key is inserted only when absent and published (with its WaitGroup armed) before the user function runs, cleanup (delete + Done) is deferred around the user function, SingleFlight deletes before Done, shared callers wait, only the creator executes and DoEx reports fresh accordingly; Limit capacity = n, Borrow sends, TryBorrow/Return are the non-blocking send/receive and report their outcome; TimeoutLimit reports success only after a borrow, ErrTimeout only once the remaining time is <= 0 (remaining = timeout - elapsed, false only from the timer case) and signals after a successful return; Pool increments created only under created < limit and before create, unlinks the head before handing it out, destroys and discounts an aged head, re-tests after Wait (in a loop, Cond built on the pool's lock) and signals on Put; RefResource runs clean only on ref reaching 0 after cleaned=true and Use refuses when cleaned; ResourceManager.Get creates only inside singleFlight.Do(key) after a failed lookup and stores the result, every flight group stored into a ResourceManager is created for that manager alone (never a package-level, copied or caller-supplied group), Close closes every entry; DoneChan closes only inside once.Do; OnceGuard/SpinLock use CAS 0→1 and Lock returns only after a successful TryLock."
+	r.NotDecided = "linearizability of concurrent histories against the sequential specifications; timing of timed borrows and resource ageing (clock values); fairness/liveness of waiters; aliasing of guarded maps through local copies; a manager's flight group shared through a wrapper object that is itself fresh, through a whole-struct copy of a ResourceManager, or leaked to another holder after creation."
 
 	la := core.NewLockAnalysis(p, syncxPkg)
 	all := p.PkgFuncs(syncxPkg)
@@ -1724,6 +1724,8 @@ func c18(r *core.Run) {
 			o.Fail(p.InstrPos(w), "Close leaves the loop before the map is exhausted (e.g. on the first error): the remaining resources stay open")
 		}
 	})
+
+	c18R8(r)
 
 	r.Check("D5/K5/donechan-close-once", "the done channel of DoneChan is closed only inside the function passed to DoneChan.once.Do", func(o *core.O) {
 		isClose := c18Builtin("close", core.FieldLoad("DoneChan.done"))
